@@ -35,6 +35,15 @@ def check(state, ev, ctx, obs):
     tm = obs.get('timers')
     if tm is not None:
         st = obs['state']
+        if ev == 'manual_stop' and (tm['connect_retry'] is not None or tm['hold'] is not None or
+                                    tm['keepalive'] is not None or tm['idle_hold'] is not None):
+            # ManualStop: "sets the ConnectRetryTimer to zero", drops the connection - nothing may be left armed that
+            # could make the agent act before the operator starts it again
+            return False
+        if state == ESTABLISHED and st == ESTABLISHED and ev in ('ka', 'upd', 'upd_bad') and ctx.get('hold'):
+            # events 26 / 27: "restarts its HoldTimer, if the negotiated HoldTime value is non-zero"
+            if tm['hold'] != ctx['hold']:
+                return False
         if state == CONNECT and ev == 'tcp_ok' and st == OPENSENT:
             # "stops the ConnectRetryTimer (if running) and sets it to zero ... sets the HoldTimer to a large value"
             # (a timer left armed but without effect in Idle is not judged: the property speaks of state, messages and
